@@ -161,6 +161,7 @@ func offClass(off int64, size uint64) string {
 
 func runC11(c *ev.Ctx) {
 	c11LastUse(c)
+	c11AboveServerCap(c)
 	r := c.Rand("c11")
 	msizes := []uint32{154, 155, 665, 666, 1023, 1024, 1025, 4096, 65536, 1 << 20}
 	if c.Thorough() {
@@ -582,6 +583,74 @@ func c11LastUse(c *ev.Ctx) {
 			}
 		}
 		c.Count("last_use_calls", 1)
+		w.close()
+	}
+}
+
+// c11AboveServerCap: the client asks for more than the server's 4 MiB; the
+// server announces 4 MiB and that is what the chunks have to fit - a read or
+// write larger than one message still behaves as one operation.
+func c11AboveServerCap(c *ev.Ctx) {
+	for i, ms := range []uint32{4<<20 + 1, 5 << 20, 8 << 20, 1<<32 - 1} {
+		if !c.Mine(i + 9) {
+			continue
+		}
+		c.Begin(fmt.Sprintf("C11 requested msize %d above the server's cap", ms))
+		w := c11Setup(c, ms)
+		if w == nil {
+			continue
+		}
+		w.node.SynthSz = 1 << 40
+		const capMsize = 4 << 20
+		// read: two full messages' worth and a bit
+		p := make([]byte, 2*capMsize+5)
+		mark := w.fs.NCalls()
+		var n int
+		var err error
+		if !ev.Watch(120*time.Second, func() { n, err = w.f.ReadAt(p, 7) }) {
+			c.Inconclusive("C11 above-cap watchdog")
+			w.close()
+			continue
+		}
+		ch := parseChunks(w.fs.Calls(mark), "ReadAt")
+		det := map[string]any{"requested_msize": ms, "len": len(p), "n": n, "err": fmt.Sprint(err), "chunks": fmt.Sprint(ch)}
+		switch {
+		case err != nil || n != len(p):
+			c.Violation("C11:above-cap:read-cut-short-although-the-file-goes-on", det)
+		default:
+			for k := range p {
+				if p[k] != memfs.SynthByte(w.node.ID, 7+uint64(k)) {
+					det["at"] = k
+					c.Violation("C11:above-cap:bytes-are-not-the-file's", det)
+					break
+				}
+			}
+		}
+		for _, x := range ch {
+			if x.want > capMsize-11 {
+				c.Violation("C11:above-cap:chunk-larger-than-the-announced-msize-allows", det)
+				break
+			}
+		}
+		// write: more than one message
+		q := make([]byte, capMsize+123457)
+		for k := range q {
+			q[k] = byte(k*13 + i)
+		}
+		if !ev.Watch(120*time.Second, func() { n, err = w.wf.WriteAt(q, 3) }) {
+			c.Inconclusive("C11 above-cap watchdog")
+			w.close()
+			continue
+		}
+		det = map[string]any{"requested_msize": ms, "len": len(q), "n": n, "err": fmt.Sprint(err)}
+		got := w.fs.Lookup("/w").Data
+		if err != nil || n != len(q) {
+			c.Violation("C11:above-cap:write-cut-short-although-nothing-failed", det)
+		} else if len(got) < 3+len(q) || !bytes.Equal(got[3:3+len(q)], q) {
+			c.Violation("C11:above-cap:stored-bytes-differ-from-p", det)
+		}
+		c.Case(fmt.Sprintf("above-cap:%d", ms), true)
+		c.Count("above_cap_calls", 2)
 		w.close()
 	}
 }
